@@ -220,7 +220,34 @@ func (b Blob) coq() string {
 
 // ---------------------------------------------------------------- fingerprint (= Verif.Pcs.Model.fp)
 
+// Every fingerprint handed to the model is registered with the SHA-256 of its argument: two different
+// arguments with the same fingerprint would make a table lookup ambiguous, so that is a fatal harness error.
+var (
+	fpMu        sync.Mutex
+	fpSeen      = map[uint64][32]byte{}
+	fpCollision string
+)
+
 func fp(b []byte) uint64 {
+	f := fpRaw(b)
+	d := sha256.Sum256(b)
+	fpMu.Lock()
+	if o, ok := fpSeen[f]; ok && o != d {
+		fpCollision = fmt.Sprintf("fingerprint %d is shared by two different arguments (sha256 %x and %x)", f, o, d)
+	}
+	fpSeen[f] = d
+	fpMu.Unlock()
+	return f
+}
+
+func checkFpCollision() {
+	if fpCollision != "" {
+		fmt.Fprintln(os.Stderr, "FATAL: "+fpCollision)
+		os.Exit(4)
+	}
+}
+
+func fpRaw(b []byte) uint64 {
 	const mask = uint64(1)<<63 - 1
 	acc := uint64(len(b))
 	for _, x := range b {
@@ -620,6 +647,8 @@ type result struct {
 	obs     []string // observations (not violations)
 	stage   string
 	nontriv bool
+	// pieces of the Coq case, for the node stream
+	quoteTerm, collTerm, tablesTerm string
 }
 
 func (p PolicyD) real() *pcs.QuotePolicy {
@@ -826,6 +855,7 @@ func evaluate(c CaseD) (res result) {
 	coll := fmt.Sprintf("(mkColl %s %s %s %s %s)", c.TI.coq(), c.TISig.coq(), c.QI.coq(), c.QISig.coq(), c.Certs.coq())
 	kase := fmt.Sprintf("(mkCase (mkEnv %s %s []) %s (%d)%%Z %s %s %s)", coqout.Bool(c.Env.AllowDebug), coqout.Bool(c.Env.Lax),
 		c.Policy.coq(), c.TsNs, c.Quote.coq(), coll, tables)
+	res.quoteTerm, res.collTerm, res.tablesTerm = c.Quote.coq(), coll, tables
 	exp := fmt.Sprintf("(%d, (%s, %s, %s))", res.code, hxBytes(res.out[0]), hxBytes(res.out[1]), hxBytes(res.out[2]))
 	if res.code != 0 {
 		exp = fmt.Sprintf("(%d, (hx 0 0, hx 0 0, hx 0 0))", res.code)
@@ -1497,8 +1527,11 @@ func genPolicies(v vector, rng *prng.R) []CaseD {
 
 func headerText() string {
 	var sb strings.Builder
-	sb.WriteString("From Verif Require Import Lib.Base Pcs.Model.\n")
+	sb.WriteString("From Verif Require Import Lib.Base Pcs.Model Pcs.Node Gen.PcsVectors.\n")
 	for _, n := range baseOrder {
+		if !strings.HasPrefix(n, "synth_") {
+			continue // the Intel vectors are in coq/Gen/PcsVectors.v (bin/gen pcsvectors)
+		}
 		sb.WriteString(fmt.Sprintf("Definition b_%s : bytes := Eval vm_compute in %s.\n", n, forceWords(bases[n])))
 	}
 	keys := make([]string, 0, len(parsedConst))
@@ -1578,6 +1611,8 @@ func main() {
 	multi := flag.Int("multi", 150, "multi-byte mutants per quote")
 	collFlips := flag.Int("collflips", 120, "collateral bit flips per vector")
 	synthN := flag.Int("synth", 400, "synthetic bundles under the harness trust root")
+	mode := flag.String("mode", "pcs", "pcs: QuoteBundle.Verify; node: node.CapabilityTEE.Verify")
+	nodeN := flag.Int("cases", 500, "node mode: number of registrations")
 	flag.Parse()
 	if *out == "" {
 		fmt.Fprintln(os.Stderr, "need -out")
@@ -1605,6 +1640,10 @@ func main() {
 		}
 	}
 
+	if *mode == "node" || *replay != "" && isNodeReplay(*replay) {
+		nodeMain(*seed, *out, *replay, *nodeN)
+		return
+	}
 	var cases []CaseD
 	if *replay != "" {
 		b, err := os.ReadFile(*replay)
@@ -1739,5 +1778,7 @@ func main() {
 		sum.Extra["observation-count:"+o] = n
 	}
 	wb.Close()
+	sum.Extra["fingerprints"] = map[string]any{"distinct": len(fpSeen), "collisions": 0}
 	sum.Write(*out)
+	checkFpCollision()
 }
